@@ -26,6 +26,17 @@ type Proxy struct {
 	Logons [2]int64 // Logon frames per direction since the last ResetHB
 	base   int64    // Conns at the last ResetHB
 	closed int32
+	down   int32 // link held down: connection attempts are dropped at once
+	Bytes  [2]int64
+}
+
+// SetDown holds the link down (every connection attempt is dropped at once) or lets it come back.
+func (p *Proxy) SetDown(d bool) {
+	v := int32(0)
+	if d {
+		v = 1
+	}
+	atomic.StoreInt32(&p.down, v)
 }
 
 func NewProxy(targetPort int) (*Proxy, int, error) {
@@ -43,6 +54,10 @@ func (p *Proxy) run() {
 		c, err := p.ln.Accept()
 		if err != nil {
 			return
+		}
+		if atomic.LoadInt32(&p.down) == 1 {
+			c.Close()
+			continue
 		}
 		u, err := net.Dial("tcp", p.target)
 		if err != nil {
@@ -82,6 +97,7 @@ func (p *Proxy) pipe(src, dst net.Conn, dir int) {
 			atomic.AddInt64(&p.App[dir], int64(bytes.Count(chunk, []byte("\x0135=D\x01"))))
 			atomic.AddInt64(&p.Logons[dir], int64(bytes.Count(chunk, []byte("\x0135=A\x01"))))
 			dst.Write(chunk)
+			atomic.AddInt64(&p.Bytes[dir], int64(len(chunk)))
 			if cut {
 				atomic.AddInt64(&p.Cuts, 1)
 				src.Close()
@@ -121,6 +137,9 @@ func (p *Proxy) ResetHB() {
 
 // ConnsSinceReset is the number of connections that went through the link since the last ResetHB.
 func (p *Proxy) ConnsSinceReset() int64 { return atomic.LoadInt64(&p.Conns) - atomic.LoadInt64(&p.base) }
+
+// BytesTotal is the number of bytes forwarded so far, both directions.
+func (p *Proxy) BytesTotal() int64 { return atomic.LoadInt64(&p.Bytes[0]) + atomic.LoadInt64(&p.Bytes[1]) }
 
 func (p *Proxy) Close() {
 	p.ln.Close()
